@@ -238,7 +238,7 @@ def gen(r, tier, i):
             given.append([p, v + 1])
     case['given'] = given
     case['probe_is_step'] = r.random() < 0.4       # the declaring process is a Step (listed under steps)
-    case['conflict'] = {'key': r.choice(['_value', '_units', '_serializer', '_default', '_updater', 'default_units', 'value_units', '_value_dict', '_value_dict_rev']),
+    case['conflict'] = {'key': r.choice(['_value', '_units', '_serializer', '_default', '_updater', 'default_units', 'value_units', '_value_dict', '_value_dict_rev', '_value_qarr']),
                         'same': r.random() < 0.4}
     return case
 
@@ -466,6 +466,10 @@ def run(spec):
                 bad['/'.join(ap)] = (defaults, ds.get(ap, 'MISSING'))
         V.check('default_state_placement', not bad,
                 lambda: ('Composite.default_state() does not place a declared default at the node its port is wired to (defaults, got)', bad))
+        # ... and it names nodes only: the sub-schema of a glob port ('*') describes children, it is not a child
+        stars = ['/'.join(map(str, ap)) for ap in ds if '*' in ap]
+        V.check('default_state_placement', not stars,
+                lambda: ('Composite.default_state() holds a child literally named "*" (the sub-schema of a glob port)', stars))
     except Exception as ex:
         import traceback
         V.check('initial_state_placement', False, ('initial_state()/default_state() raised', type(ex).__name__, str(ex)[:200],
@@ -496,6 +500,7 @@ def conflict_case(V, spec):
     compatible (equal) declarations must not."""
     from vivarium.core.engine import Engine
     from vivarium.library.units import units
+    import numpy as np
     Probe = make_probe(False)
     key, same = spec['conflict']['key'], spec['conflict']['same']
     vals = {'_value': (5, 5 if same else 6),
@@ -508,9 +513,11 @@ def conflict_case(V, spec):
             'default_units': (1.0 * units.fg, 1000.0 * units.ag if same else 1.0 * units.s),
             'value_units': (1.0 * units.fg, 1000.0 * units.ag if same else 1.0 * units.s),
             # dictionary values: equal, or the second a strict superset of the first (in either listing order)
+            # arrays with units: equal arrays are compatible, different ones are a conflict
+            '_value_qarr': (np.ones(3) * units.fg, np.ones(3) * units.fg if same else 2 * np.ones(3) * units.fg),
             '_value_dict': ({'lower': 0.0, 'n': {'a': 1}}, {'lower': 0.0, 'n': {'a': 1}} if same else {'lower': 0.0, 'n': {'a': 1, 'b': 2}}),
             '_value_dict_rev': ({'lower': 0.0, 'upper': 10.0}, {'lower': 0.0, 'upper': 10.0} if same else {'lower': 0.0})}[key]
-    if key in ('_value_dict', '_value_dict_rev'):
+    if key in ('_value_dict', '_value_dict_rev', '_value_qarr'):
         key_name = '_value'
     else:
         key_name = key
@@ -530,7 +537,7 @@ def conflict_case(V, spec):
         raised = None
     except Exception as ex:
         raised = ex
-    if key in ('_value', '_units', '_serializer', 'default_units', 'value_units', '_value_dict', '_value_dict_rev'):
+    if key in ('_value', '_units', '_serializer', 'default_units', 'value_units', '_value_dict', '_value_dict_rev', '_value_qarr'):
         if same:
             V.check('compatible_accepted', raised is None, lambda: ('equal %s declarations rejected' % key, repr(raised)[:200]))
         else:
